@@ -378,7 +378,7 @@ def execute_orbit(ctx: RunCtx) -> None:
     pre = ds.pick(["none", "loose_1e-5_first", "loose_1e-4_first", "rounded_state_and_period"], "orbit.prehistory", (0.55, 0.2, 0.1, 0.15))
     if pre.startswith("loose"):
         try:
-            orbit.correct(orbit.correction_options.merge(**{"base.convergence.tol": 1e-5 if "1e-5" in pre else 1e-4}))
+            orbit.correct(orbit.correction_options.merge(**{"base.convergence.tol": 1e-5 if "1e-5" in pre else 1e-4, "base.convergence.max_delta": 0.5}))
         except Exception:
             pass
     elif pre == "rounded_state_and_period":
@@ -413,6 +413,10 @@ def execute_orbit(ctx: RunCtx) -> None:
     # fault at the half-period seam: the event detection that turns the converged state into a period fails
     from hiten.algorithms.corrector.interfaces import _OrbitCorrectionInterface
     hp_fault = ds.flag("ofault.half_period_event_fails", 0.12)
+    max_delta = ds.pick([1e-2, 1e-3, 0.1], "orbit.max_delta", (0.6, 0.25, 0.15))   # drawn last: earlier replays stay aligned
+    opts = opts.merge(**{"base.convergence.max_delta": max_delta})
+    cfgd["max_delta"] = max_delta
+    log.add("cfg.max_delta", fhex(max_delta))
     real_create = _OrbitCorrectionInterface.create_problem
 
     def create_with_faulty_event(self, **kw):
